@@ -13,7 +13,7 @@ ASSUMPTIONS = [
     'jax PRNG streams cannot be scripted: the seed is an enumerated configuration value',
 ]
 LAYOUTS = [(0, (3,)), (1, ()), (2, ()), (1, (2,)), (3, (2, 3)), (3, ())]
-SCORES = ['interior', 'corner', 'categorical', 'plateau', 'neginf-region', 'constant']
+SCORES = ['interior', 'corner', 'categorical', 'plateau', 'neginf-region', 'constant', 'posinf-region', 'neginf-almost-everywhere']
 
 
 def _problem(nc, cats):
@@ -41,6 +41,10 @@ def score_np(name, x, c, nc, cats):
     s = np.where(np.sum(xr, axis=-1) < 0.2 * max(nc, 1), 1.0, 0.0) if nc else s
   elif name == 'neginf-region':
     s = np.where((xr[..., 0] > 0.5) if nc else False, -np.inf, -np.sum(xr, axis=-1))
+  elif name == 'posinf-region':
+    s = np.where((xr[..., 0] > 0.9) if nc else False, np.inf, -np.sum((xr - 0.3) ** 2, axis=-1))
+  elif name == 'neginf-almost-everywhere':
+    s = np.where(np.all(np.abs(xr - 0.5) < 1e-3, axis=-1) if nc else False, 1.0, -np.inf)
   if name in ('categorical', 'interior') and len(cats):
     s = s + 0.5 * (c[..., 0] == (cats[0] - 1))
   return s
@@ -64,6 +68,10 @@ def make_score(name, nc, cats):
       s = jnp.where(jnp.sum(xr, axis=-1) < 0.2 * max(nc, 1), 1.0, 0.0) if nc else s
     elif name == 'neginf-region':
       s = jnp.where((xr[..., 0] > 0.5) if nc else False, -jnp.inf, -jnp.sum(xr, axis=-1))
+    elif name == 'posinf-region':
+      s = jnp.where((xr[..., 0] > 0.9) if nc else False, jnp.inf, -jnp.sum((xr - 0.3) ** 2, axis=-1))
+    elif name == 'neginf-almost-everywhere':
+      s = jnp.where(jnp.all(jnp.abs(xr - 0.5) < 1e-3, axis=-1) if nc else False, 1.0, -jnp.inf)
     if name in ('categorical', 'interior') and len(cats):
       s = s + 0.5 * (c[..., 0] == (cats[0] - 1))
     if x.ndim == 3:      # parallel acquisition: one value per set of n_parallel points
@@ -96,7 +104,7 @@ def shard(task):
     prior = None
     prior_trials = []
     if cfg['prior']:
-      best = {'interior': 0.3, 'corner': 1.0, 'categorical': 0.5, 'plateau': 0.0, 'neginf-region': 0.0, 'constant': 0.5}[cfg['score']]
+      best = {'interior': 0.3, 'corner': 1.0, 'categorical': 0.5, 'plateau': 0.0, 'neginf-region': 0.0, 'constant': 0.5, 'posinf-region': 0.95, 'neginf-almost-everywhere': 0.5}[cfg['score']]
       for k in range(cfg['prior']):
         params = {'x%d' % i: (best if k == 0 else 0.9 - 0.1 * k) for i in range(nc)}
         params.update({'c%d' % j: (str(sz - 1) if k == 0 else '0') for j, sz in enumerate(cats)})
@@ -136,7 +144,8 @@ def shard(task):
         found.append(('padding-leaks', 'padded dimensions of the result hold %s / %s' % (X[..., nc:][X[..., nc:] != 0][:3].tolist(), C[..., len(cats):][C[..., len(cats):] != 0][:3].tolist())))
       if cfg['n_parallel'] is None:
         want = score_np(cfg['score'], X[:, 0, :], C[:, 0, :], nc, cats)
-        ok = np.all((np.isneginf(want) & np.isneginf(R)) | (np.abs(np.where(np.isfinite(want), want, 0) - np.where(np.isfinite(R), R, 0)) <= 1e-6))
+        with np.errstate(invalid='ignore'):
+          ok = np.all((want == R) | (np.isfinite(want) & np.isfinite(R) & (np.abs(want - R) <= 1e-6)))
         if not ok:
           found.append(('reward-not-the-score', 'reported rewards %s, score at the returned candidates %s' % (R.tolist(), want.tolist())))
         if prior_trials:
@@ -162,7 +171,7 @@ def configs(quick, seed):
   out = []
   for layout, pad, strat, count, batch, evmul, prior, npar, score, sd in itertools.product(
       LAYOUTS, [False, True], ['random', 'eagle'], [1, 3], [5] if quick else [1, 5, 25], [4] if quick else [1, 4], [0, 3] if quick else [0, 1, 3], [None, 2],
-      SCORES[:5] if quick else SCORES, [seed + 1] if quick else [seed + 1, seed + 2]):
+      SCORES[:5] + SCORES[6:] if quick else SCORES, [seed + 1] if quick else [seed + 1, seed + 2]):
     nc, cats = layout
     evals = max(batch * evmul, count)
     if pad and nc != 3:
@@ -173,10 +182,20 @@ def configs(quick, seed):
       # eagle compiles one XLA program per configuration: keep its quick slice small
       if strat == 'eagle' and not (batch == 5 and evmul == 4 and count == 3 and score in ('interior', 'categorical', 'neginf-region') and layout in LAYOUTS[:5:2] + [LAYOUTS[4]]):
         continue
+      if strat == 'random' and score in SCORES[6:] and (count == 1 or npar):
+        continue
       if strat == 'random' and score == 'constant' and prior:
         continue
     out.append({'layout': [nc, list(cats)], 'pad': pad, 'strategy': strat, 'count': count, 'batch': batch, 'evals': evals, 'prior': prior,
                 'n_parallel': npar, 'score': score, 'seed': sd})
+  # eagle well past its pool-initialisation phase (the budget is several times the pool size), where fireflies pull and push each
+  # other: non-finite scores (+inf somewhere, -inf almost everywhere) enter the force computation
+  for layout in ([LAYOUTS[4], LAYOUTS[5]] if quick else LAYOUTS[1:]):
+    for score in ['posinf-region', 'neginf-almost-everywhere', 'neginf-region'] + ([] if quick else ['interior', 'plateau']):
+      for evals in ([100] if quick else [100, 400]):
+        for prior in ([0] if quick else [0, 3]):
+          out.append({'layout': [layout[0], list(layout[1])], 'pad': False, 'strategy': 'eagle', 'count': 3, 'batch': 5, 'evals': evals, 'prior': prior,
+                      'n_parallel': None, 'score': score, 'seed': seed + 1})
   for c in out:
     c['layout'] = (c['layout'][0], tuple(c['layout'][1]))
   return out
